@@ -23,6 +23,8 @@ COLUMN_EXPRS = [
     ["concat", "(", "lower", "(", "ext", ")", ",", "upper", "(", "name", ")", ")"],
     ["length", "(", "concat", "(", "name", ",", "ext", ")", ")", "+", "1"],
     ["abs", "(", "(", "size", "-", "4", ")", ")"],
+    # names with an underscore next to arithmetic
+    ["line_count", "+", "1"], ["mp3_bitrate", "+", "1"], ["hardlinks", "*", "2"], ["is_dir"], ["sha2_256"], ["line_count", "-", "1"],
 ]
 AGG_EXPRS = [["count(*)"], ["sum", "(", "size", ")"], ["avg", "(", "size", ")"],
              ["min", "(", "length", "(", "name", ")", ")"], ["max", "(", "size", ")"], ["stddev", "(", "size", ")"]]
